@@ -30,11 +30,75 @@ def dec(v, M):
     return v
 
 
-def call(c, M):
-    fn = getattr(M.procedural, c["gen"])
-    kw = {k: dec(v, M) for k, v in c.get("kw", {}).items()}
+def build_args(c, M):
+    """-> (args, kwargs) following the optional "form" of the case:
+       {"positional": [names in order], "omit": [names], "np": {name: dtype}, "aslist": [names]}"""
+    import numpy as np
+    form = c.get("form", {})
+    kw = {}
+    for k, v in c.get("kw", {}).items():
+        if k in form.get("omit", []):
+            continue
+        x = dec(v, M)
+        if k in form.get("np", {}):
+            x = getattr(np, form["np"][k])(x)
+        if k in form.get("aslist", []):
+            x = [tuple(float(t) for t in row) for row in x]
+        kw[k] = x
     args = [dec(v, M) for v in c.get("args", [])]
-    return fn(*args, **kw)
+    for k in form.get("positional", []):
+        args.append(kw.pop(k))
+    return args, kw
+
+
+def snapshot(x):
+    import numpy as np
+    if isinstance(x, np.ndarray):
+        return np.array(x, copy=True)
+    if hasattr(x, "vertices"):   # a mesh argument: coordinates and attribute names
+        return ("mesh", [[float(t) for t in p] for p in x.vertices],
+                {n: sorted(getattr(x, n).attributes) for n in ("vertices", "edges", "faces", "face_corners") if hasattr(x, n)},
+                [[int(t) for t in f] for f in x.faces] if hasattr(x, "faces") else None)
+    if isinstance(x, list):
+        return [snapshot(t) for t in x]
+    return x
+
+
+def same(a, b):
+    import numpy as np
+    if isinstance(a, np.ndarray) or isinstance(b, np.ndarray):
+        return np.shape(a) == np.shape(b) and bool(np.all(np.asarray(a) == np.asarray(b)))
+    if isinstance(a, (list, tuple)) and isinstance(b, (list, tuple)):
+        return len(a) == len(b) and all(same(x, y) for x, y in zip(a, b))
+    return a == b
+
+
+def call(c, M, keep=None):
+    if c["gen"] == "__raw__":          # a literal input mesh (for dual_mesh): just build it
+        return dec({"raw": c["raw"]}, M)
+    fn = getattr(M.procedural, c["gen"])
+    args, kw = build_args(c, M)
+    if keep is not None:
+        keep["args"], keep["kw"] = args, kw
+        keep["before"] = [snapshot(a) for a in args] + [snapshot(kw[k]) for k in sorted(kw)]
+    r = fn(*args, **kw)
+    if keep is not None:
+        after = [snapshot(a) for a in args] + [snapshot(kw[k]) for k in sorted(kw)]
+        keep["args_unchanged"] = same(keep["before"], after)
+    return r
+
+
+def defaults_snapshot(c, M):
+    """repr of the default values of the generator's optional parameters (a default mutated by a call is a slip)"""
+    import inspect
+    if c["gen"] == "__raw__":
+        return {}
+    fn = getattr(M.procedural, c["gen"])
+    fn = getattr(fn, "__wrapped__", fn)
+    try:
+        return {k: repr(p.default) for k, p in inspect.signature(fn).parameters.items() if p.default is not inspect.Parameter.empty}
+    except (TypeError, ValueError):
+        return {}
 
 
 def observe(m):
@@ -105,12 +169,28 @@ def main():
     res = []
     for c in payload["cases"]:
         np.random.seed(c.get("seed", 0))
+        keep = {}
+        d0 = defaults_snapshot(c, M)
         try:
-            m = call(c, M)
+            m = call(c, M, keep)
             ob = observe(m)
         except Exception as ex:  # noqa
-            res.append({"exc": "%s" % (ex,), "exc_type": type(ex).__name__})
+            res.append({"exc": "%s" % (ex,), "exc_type": type(ex).__name__, "defaults_unchanged": defaults_snapshot(c, M) == d0})
             continue
+        ob["args_unchanged"] = keep.get("args_unchanged")
+        ob["defaults_unchanged"] = defaults_snapshot(c, M) == d0
+        # the caller's arrays edited after the call must not move the mesh
+        try:
+            import numpy as _np
+            touched = False
+            for a in list(keep["args"]) + list(keep["kw"].values()):
+                if isinstance(a, _np.ndarray) and a.dtype.kind == "f" and a.size:
+                    a += 3.5
+                    touched = True
+            if touched:
+                ob["alias_free"] = all(observe(m).get(k) == ob.get(k) for k in ("V", "X", "F", "E", "C"))
+        except Exception as ex:  # noqa
+            ob["alias_free"] = "error %s: %s" % (type(ex).__name__, ex)
         # every call must build a fresh mesh: edit the first result in place, call again with the same parameters
         try:
             edit_in_place(m)
